@@ -306,9 +306,13 @@ class DefaultWorker(Worker):
 
             res = [task, out, err, ret, val, exc]
 
+            # report the result - unless the request was declared timed out
+            # in the meantime (the payload may have outlived the SIGTERM): one
+            # result per request
             with res_lock:
-                self._result_queue.put(res)
-                res_done.set()
+                if not res_done.is_set():
+                    self._result_queue.put(res)
+                    res_done.set()
         # ----------------------------------------------------------------------
 
 
@@ -326,21 +330,32 @@ class DefaultWorker(Worker):
             worker_proc.start()
             worker_proc.join(timeout=tout)
 
+            timed_out = False
             with res_lock:
                 # a process which already reported its result is not timed
                 # out, even if it did not exit, yet: one result per request
                 if worker_proc.is_alive() and not res_done.is_set():
-                    worker_proc.terminate()
-                    worker_proc.join()
-                    out = None
-                    err = 'timeout (>%s)' % tout
-                    ret = 1
-                    val = None
-                    exc = ['TimeoutError("task timed out")', None]
-                    res = [task, str(out), str(err), int(ret), val, exc]
-                    self._log.debug('put 2 result: task %s', task['uid'])
-                    self._result_queue.put(res)
-                    self._log.debug('worker_proc killed: %s', task['uid'])
+                    # claim the result: the payload must not report anymore
+                    timed_out = True
+                    res_done.set()
+
+            if timed_out:
+                # NOTE: wait for the process *without* holding the lock: a
+                #       payload which outlives the SIGTERM needs the lock to
+                #       learn that its result is not wanted anymore.  The
+                #       timeout is reported (and the resources are freed) only
+                #       once the payload is really gone.
+                worker_proc.terminate()
+                worker_proc.join()
+                out = None
+                err = 'timeout (>%s)' % tout
+                ret = 1
+                val = None
+                exc = ['TimeoutError("task timed out")', None]
+                res = [task, str(out), str(err), int(ret), val, exc]
+                self._log.debug('put 2 result: task %s', task['uid'])
+                self._result_queue.put(res)
+                self._log.debug('worker_proc killed: %s', task['uid'])
 
             # let a process which reported its result flush it to the queue
             worker_proc.join()
